@@ -24,6 +24,10 @@ CLAIMED = {
         technique="deterministic simulation with fault injection at the file seam (builtins.open + numpy's opener table): ENOSPC/EIO at seeded write/flush/close points, failing open, short reads, EIO on read; matplotlib Agg Axes as recording sink with Axes-reuse history",
         text="Seeded sequences of save / load / plot operations with injected write and read faults; every written file is parsed back and compared with the contour row by row, every loaded frame with the text the harness wrote, every drawn artist with the contour / sample / design conditions / model values; a save that returns after a fault must have written the complete file and the next save must recover.",
         note="Trusts matplotlib's artist getters and the harness's own parser/formatter; isodensity lines are judged by bracketing the level with the model's pdf around each drawn vertex."),
+    "C07": dict(engine="rng", level="exploration", design="DESIGN.md section 3 / C07",
+        technique="deterministic simulation: the simulator owns every randomness source (random_state None/int/shared Generators, NumPy's global legacy RNG re-seeded between steps as an injected fault) and replays each draw schedule twice; DKW bounds at 1e-12 against the model's own (conditional) cdf via the Rosenblatt image",
+        text="Seeded schedules of draws over 1-3 live sampling objects (all families; 2-D/3-D models of every dependence structure) with interleaved global-RNG skews; every sample of >= 2000 rows is judged by distribution-free DKW bounds (overall and within quantile bins of every earlier coordinate), shapes and supports are checked, and seeded draws must be bit-identical in a second execution of the schedule with identically seeded Generators and different global-RNG state.",
+        note="Statistical verdicts have error probability <= 1e-12 per comparison (count in evidence); the reference law is the object's own cdf, as the property states."),
 }
 
 NA = {
